@@ -169,6 +169,16 @@ CORPUS = [
     'a 1 2e0\na 1 1.5\n# EOF\n',                                #     AttributeError Timestamp.__lt__ (reflected)
     '# TYPE a counter\na_total 1' + '0' * 400 + '\n# EOF\n',    # OverflowError math.isnan(huge int)
     '# TYPE a histogram\na_bucket{le="+Inf"} -1' + '0' * 310 + '\n# EOF\n',
+    '# TYPE a histogram\na_gsum ' + NH + '\n# EOF\n',           # TypeError `None < 0` in _check_histogram (after 74e3eee)
+    '# TYPE a histogram\na_gsum{x="y"} ' + NH + '\n# EOF\n',
+    '# TYPE a histogram\na_bucket{le="+Inf"} 1\nb_gsum ' + NH + '\n# EOF\n',
+    'a 1 1' + '0' * 400 + '\na 1 2e0\n# EOF\n',                 # OverflowError in Timestamp.__float__ (after 007bfee)
+    'a 1 2e0\na 1 1' + '0' * 400 + '\n# EOF\n',
+    'a 1 -1' + '0' * 400 + '.5\na 1 2e0\n# EOF\n',
+    'a 1 1.5\na 1 1.25e0\n# EOF\n', 'a 1 1.25e0\na 1 1.5\n# EOF\n', 'a 1 2e0\na 1 2\n# EOF\n', 'a 1 2\na 1 2e0\na 1 2.000000001\n# EOF\n',
+    'a 1 9007199254740993\na 1 9007199254740992e0\n# EOF\n', 'a 1 -1.5\na 1 -1.4e0\n# EOF\n', 'a 1 -1.5\na 1 -1.6e0\n# EOF\n',
+    '# TYPE a histogram\na_bucket{le="nan"} 1\na_bucket{le="+Inf"} 1\n# EOF\n', '# TYPE a histogram\na_bucket{le="-NAN"} 1\na_bucket{le="+Inf"} 1\n# EOF\n',
+    '# TYPE a histogram\na_bucket{le="x"} 1\n# EOF\n',
     # accepted native histograms (not findings; they exercise the struct parser)
     '# TYPE a histogram\na ' + NH + '\n# EOF\n',
     '# TYPE a histogram\na ' + NHFULL + '\n# EOF\n',
@@ -352,7 +362,7 @@ class Batch:
         ctx = self.ctx
         r1 = real_parse(text, legacy)
         r2 = real_parse(text, legacy)
-        case = {'kind': 'doc', 'legacy': int(legacy), 'text': text, 'origin': origin}
+        case = {'parser': 'om', 'kind': 'doc', 'legacy': int(legacy), 'text': text, 'origin': origin}
         key = None
         if r1[0] == 'ok':
             ctx.count('om:accepted')
@@ -376,7 +386,7 @@ class Batch:
         set_legacy(legacy)
         r = guarded(lambda: enc(call(arg)))
         self.ctx.count('omfn:' + name)
-        case = {'kind': 'fn', 'fn': name, 'arg': arg, 'legacy': int(legacy)}
+        case = {'parser': 'om', 'kind': 'fn', 'fn': name, 'arg': arg, 'legacy': int(legacy)}
         req = {'ts': 'om ts %s', 'help': 'om help %s', 'lines': 'om lines %s'}.get(name)
         self.reqs.append(req % lib.hx(arg) if req else 'om %s %d %s' % (name, int(legacy), lib.hx(arg)))
         self.items.append((obs(r), case))
